@@ -302,6 +302,9 @@ type WorkerArgs struct {
 	OutDir   string
 }
 
+// ProgressProbe, when set, returns a counter that advances while library code is running.
+var ProgressProbe func() uint64
+
 // stallSeconds is the single-case stall limit (wall clock; the margin over the observed
 // per-case time, microseconds to a few seconds for the largest scaling inputs, is > 100x).
 const stallSeconds = 240
@@ -331,6 +334,12 @@ func RunWorker(a WorkerArgs) int {
 				return
 			case <-t.C:
 				now := atomic.LoadInt64(&progress)
+				if ProgressProbe != nil {
+					// on the tick-instrumented build the logical clock counts as progress too: a
+					// slow but advancing case is not a stall (runaway loops in instrumented code
+					// are the step budget's business, deterministically)
+					now += int64(ProgressProbe() >> 8)
+				}
 				if now != last {
 					last = now
 					lastChange = time.Now()
